@@ -43,7 +43,7 @@ def evs (l : List String) : String := if l.isEmpty then "-" else ",".intercalate
 /-! ## kind `view` -/
 
 def viewRecord (self : Nat) (initialLen : Nat) (v : View) (err : String) : String :=
-  s!"M[{showNodes v.nodes}] V[{showIds ((voters self v.nodes).map (·.id))}] P[{showIds ((replicationPeers self v.nodes).map (·.id))}] v{v.ver} s{if initialLen == 1 then 1 else 0} e[{if err.isEmpty then "-" else err}]"
+  s!"M[{showNodes v.nodes}] V[{showIds ((voters self v.nodes).map (·.id))}] P[{showIds ((replicationPeers self v.nodes).map (·.id))}] v{v.ver} s{if isSingleNodeCluster initialLen self v then 1 else 0} e[{if err.isEmpty then "-" else err}]"
 
 def viewRun (self : Nat) (n0 : Nat) : View → List String → List String → List String → List String × List String
   | _, [], recs, tags => (recs.reverse, tags.reverse)
